@@ -584,13 +584,49 @@ func (t *fnTrans) nextInstr(in *ssa.Next) {
 
 // ---------- channels (ghost: only lengths are tracked) ----------
 
+// Channels carry ghost counters only: per channel the number of completed sends and receives and the
+// last value sent. Contents/ordering are not modelled; a blocking operation is assumed to complete.
+func (t *fnTrans) chanVars(ct types.Type) (sent, last, recvd *StateVar) {
+	et := ct.Underlying().(*types.Chan).Elem()
+	k := typeKey(et)
+	sent = t.stateVar("CS_"+k, "(Array Int Int)", "chan", true, nil)
+	last = t.stateVar("CV_"+k, "(Array Int "+t.S.sortOf(et)+")", "chan", true, et)
+	recvd = t.stateVar("CR_"+k, "(Array Int Int)", "chan", true, nil)
+	return
+}
+
+func (t *fnTrans) recordSend(ct types.Type, ch, v Term, cond Term) {
+	sent, last, _ := t.chanVars(ct)
+	cs, cv := t.get(t.cur, sent.Name), t.get(t.cur, last.Name)
+	if cond == "" {
+		t.set(sent.Name, fmt.Sprintf("(store %s %s (+ (select %s %s) 1))", cs, ch, cs, ch))
+		t.set(last.Name, fmt.Sprintf("(store %s %s %s)", cv, ch, v))
+		return
+	}
+	// conditional update written as a store of a conditional VALUE (no array-level ite)
+	t.set(sent.Name, fmt.Sprintf("(store %s %s (ite %s (+ (select %s %s) 1) (select %s %s)))", cs, ch, cond, cs, ch, cs, ch))
+	t.set(last.Name, fmt.Sprintf("(store %s %s (ite %s %s (select %s %s)))", cv, ch, cond, v, cv, ch))
+}
+
+func (t *fnTrans) recordRecv(ct types.Type, ch Term, cond Term) {
+	_, _, recvd := t.chanVars(ct)
+	cr := t.get(t.cur, recvd.Name)
+	if cond == "" {
+		t.set(recvd.Name, fmt.Sprintf("(store %s %s (+ (select %s %s) 1))", cr, ch, cr, ch))
+		return
+	}
+	t.set(recvd.Name, fmt.Sprintf("(store %s %s (ite %s (+ (select %s %s) 1) (select %s %s)))", cr, ch, cond, cr, ch, cr, ch))
+}
+
 func (t *fnTrans) chanSend(in *ssa.Send) {
-	t.assumptions["channel send at "+t.posStr(in.Pos())+" assumed to complete; channel contents are not modelled"] = true
+	t.assumptions["channel operations are assumed to complete; only send/receive counts and the last value sent are modelled"] = true
+	t.recordSend(in.Chan.Type(), t.term(t.val(in.Chan)), t.term(t.val(in.X)), "")
 }
 
 func (t *fnTrans) chanRecv(in *ssa.UnOp) {
 	et := in.X.Type().Underlying().(*types.Chan).Elem()
 	v := t.freshVal("recv", et)
+	t.recordRecv(in.X.Type(), t.term(t.val(in.X)), "")
 	if in.CommaOk {
 		ok := t.fresh("recvok", "Bool")
 		t.setVal(in, Val{Tup: []Val{{T: v}, {T: ok}}})
@@ -619,6 +655,14 @@ func (t *fnTrans) selectInstr(in *ssa.Select) {
 	for i, s := range in.States {
 		ch := t.term(t.val(s.Chan))
 		t.assume(fmt.Sprintf("(=> (= %s %s) (not (= %s 0)))", idx, t.S.intLit(fmt.Sprint(i), tInt), ch))
+	}
+	for i, s := range in.States {
+		chosen := fmt.Sprintf("(= %s %s)", idx, t.S.intLit(fmt.Sprint(i), tInt))
+		if s.Dir == types.SendOnly {
+			t.recordSend(s.Chan.Type(), t.term(t.val(s.Chan)), t.term(t.val(s.Send)), chosen)
+		} else {
+			t.recordRecv(s.Chan.Type(), t.term(t.val(s.Chan)), chosen)
+		}
 	}
 	tup := []Val{{T: idx}, {T: t.fresh("selrecvok", "Bool")}}
 	for _, s := range in.States {
@@ -720,6 +764,9 @@ func (t *fnTrans) frameCond(name string, st *State) Term {
 	sv := t.vars[name]
 	if sv == nil || !(sv.Heap || sv.Kind == "ghost") {
 		return ""
+	}
+	if sv.Kind == "chan" && !t.fc.NoChan {
+		return "" // channel counters are outside the frame unless the contract says `nochan`
 	}
 	cur := t.get(st, name)
 	if cur == name+"_0" {
